@@ -285,4 +285,154 @@ example : ∃ s', opSlice exSt { t := some (.int (-1)), c := some (.slc (some 1)
   refine ⟨_, rfl, ?_⟩
   decide +kernel
 
+
+/-! ### the side condition of `time_window_partial` discharged -/
+
+/-- every variable that could be listed is listed, and no two variables share a name (true of every file the
+library builds: `updatemeta` lists all standard-dimension variables with names of at most 16 characters) -/
+structure AllListed (s : St) : Prop where
+  all : ∀ k, listable s k = true → k ∈ s.varlist
+  nodup : (s.vars.map (·.name)).Nodup
+
+/-- one `_add2Varlist([k])`: the listed names stay in place; at most `k` is appended, and only if it was not
+a listed name -/
+theorem add2Varlist_single (o : St) (k : String) (base ex : List String) (hvl : o.varlist = base ++ ex)
+    (hex : ∀ x ∈ ex, x ∉ base) (hp : k ∈ base → present o k = true) :
+    ∃ ex', (add2Varlist o [k]).varlist = base ++ ex' ∧ ∀ x ∈ ex', x ∉ base := by
+  simp only [add2Varlist]
+  generalize hFdef : (fun k => decide (k.length ≤ 16) && !((o.varlist.filter (present o)).contains k) &&
+      k != "TFLAG" && k != "ETFLAG") = F
+  cases hFk : F k with
+  | true =>
+    refine ⟨ex ++ [k], ?_, ?_⟩
+    · rw [List.filter_cons, hFk, if_pos rfl, List.filter_nil, hvl, List.append_assoc]
+    · intro x hx
+      rcases List.mem_append.mp hx with h1 | h2
+      · exact hex x h1
+      · simp only [List.mem_cons, List.mem_nil_iff, or_false] at h2
+        rw [h2]
+        intro hin
+        have hc : ((o.varlist.filter (present o)).contains k) = true := by
+          rw [List.contains_iff_mem, List.mem_filter]
+          exact ⟨by rw [hvl]; exact List.mem_append_left _ hin, hp hin⟩
+        have hk := congrFun hFdef k
+        rw [hFk] at hk
+        simp only [hc, Bool.not_true, Bool.and_false, Bool.false_and] at hk
+        cases hk
+  | false =>
+    refine ⟨ex, ?_, hex⟩
+    rw [List.filter_cons, hFk]
+    simp [hvl]
+
+/-- copying the variables one by one into a shell keeps the listed names in place and can only append names
+that were not listed -/
+theorem putAll_varlist : ∀ (vs : List DVar) (o : St) (base : List String),
+    (∃ ex, o.varlist = base ++ ex ∧ ∀ k ∈ ex, k ∉ base) →
+    ∃ ex, (putAll o vs).varlist = base ++ ex ∧ ∀ k ∈ ex, k ∉ base := by
+  intro vs
+  induction vs with
+  | nil => intro o base h; exact h
+  | cons v vs ih =>
+    intro o base h
+    obtain ⟨ex, hvl, hex⟩ := h
+    have : putAll o (v :: vs) = putAll (putVar o v) vs := rfl
+    rw [this]
+    apply ih (putVar o v) base
+    exact add2Varlist_single _ v.name base ex hvl hex (by
+      intro _
+      simp [present, hasVar])
+
+theorem putAll_vars_nodup (o : St) (ho : o.vars = []) : ∀ (vs : List DVar), (vs.map (·.name)).Nodup →
+    ∀ (done : List DVar) (o' : St), o'.vars = done → (∀ d ∈ done, ∀ v ∈ vs, d.name ≠ v.name) →
+    (putAll o' vs).vars = done ++ vs := by
+  intro vs
+  induction vs with
+  | nil => intro _ done o' h _; simp [putAll, h]
+  | cons v vs ih =>
+    intro hnd done o' hd hdis
+    have : putAll o' (v :: vs) = putAll (putVar o' v) vs := rfl
+    rw [this]
+    have hnd' := List.nodup_cons.mp hnd
+    have hv : (putVar o' v).vars = done ++ [v] := by
+      simp only [putVar, vars_add2Varlist, hd]
+      congr 1
+      apply List.filter_eq_self.mpr
+      intro d hdm
+      have := hdis d hdm v (by simp)
+      simpa using this
+    rw [ih hnd'.2 (done ++ [v]) (putVar o' v) hv (by
+      intro d hdm w hw
+      rcases List.mem_append.mp hdm with h1 | h2
+      · exact hdis d h1 w (by simp [hw])
+      · simp only [List.mem_cons, List.mem_nil_iff, or_false] at h2
+        rw [h2]
+        intro heq
+        exact hnd'.1 (List.mem_map.mpr ⟨w, hw, heq.symm⟩))]
+    simp
+
+/-- **a window operation never changes which variables are listed** (for files whose listable variables are
+all listed) -/
+theorem slice_keeps_varlist (s s' : St) (kw : Kw) (h : Coherent s) (ht : TimeOk s) (ha : AllListed s)
+    (hn : 1 ≤ s.varlist.length) (hs : opSlice s kw = some s') : s'.varlist = s.varlist := by
+  obtain ⟨it, il, ir, ic, ip, _, _, _, _, _, hs', _⟩ := slice_core s s' kw h ht hs
+  rw [hs', varlist_updatemeta]
+  -- variables and list of the state handed to updatemeta
+  have hvars : (slicePre s it il ir ic ip).vars = s.vars := by
+    have h1 : (putAll (sliceShell s it il ir ic ip) s.vars).vars = [] ++ s.vars :=
+      putAll_vars_nodup (sliceShell s it il ir ic ip) rfl s.vars ha.nodup [] (sliceShell s it il ir ic ip) rfl
+        (by intro d hd; cases hd)
+    simp only [slicePre, setGeo, copyVarsInto]
+    cases s.tflag with
+    | none => simpa using h1
+    | some wr => simpa using h1
+  obtain ⟨ex, hvl, hex⟩ := putAll_varlist s.vars (sliceShell s it il ir ic ip) s.varlist
+    ⟨[], by simp [sliceShell, shell], by intro k hk; cases hk⟩
+  have hvarlist : (slicePre s it il ir ic ip).varlist = s.varlist ++ ex := by
+    simp only [slicePre, setGeo, copyVarsInto]
+    cases s.tflag with
+    | none => simpa using hvl
+    | some wr =>
+      simp only [putTflag, add2Varlist]
+      simp [hvl]
+  -- getVarlist
+  have hne : ¬ ((slicePre s it il ir ic ip).varlist.isEmpty = true) := by
+    rw [hvarlist]
+    cases hsv : s.varlist with
+    | nil => rw [hsv] at hn; simp at hn
+    | cons a as => simp
+  simp only [getVarlist, hne, if_false, Bool.false_eq_true]
+  rw [hvarlist, List.filter_append]
+  have hl : ∀ k, listable (slicePre s it il ir ic ip) k = listable s k := fun k => listable_congr hvars k
+  have h1 : s.varlist.filter (listable (slicePre s it il ir ic ip)) = s.varlist := by
+    apply List.filter_eq_self.mpr
+    intro k hk
+    rw [hl]; exact h.2.2.2.1 k hk
+  have h2 : ex.filter (listable (slicePre s it il ir ic ip)) = [] := by
+    apply List.filter_eq_nil_iff.mpr
+    intro k hk hlist
+    rw [hl] at hlist
+    exact hex k hk (ha.all k hlist)
+  rw [h1, h2, List.append_nil]
+
+/-- **time, every step (C11, full)**: the decoded times of a time window are the selected sub-range of the
+source's decoded times — for every coherent file whose listable variables are all listed, any window -/
+theorem time_window (s s' : St) (kw : Kw) (w : Win) (h : Coherent s) (ht : TimeOk s) (ha : AllListed s)
+    (hn : 1 ≤ s.varlist.length) (hs : opSlice s kw = some s') (hw : kw.t = some w) :
+    ∃ i, winIdx s.nT w = some i ∧ getTimes s' = pickL i (getTimes s) :=
+  time_window_partial s s' kw w h ht hs hw (by rw [slice_keeps_varlist s s' kw h ht ha hn hs])
+
+/-- `AllListed` is met by the example state of C10 -/
+example : AllListed exSt := by
+  refine ⟨?_, by decide⟩
+  intro k hk
+  unfold listable at hk
+  simp only [Bool.and_eq_true, List.any_eq_true] at hk
+  obtain ⟨⟨v, hv, hname, hstd⟩, _⟩ := hk
+  have hk' : k = v.name := by simpa using (beq_iff_eq.mp hname).symm
+  simp only [exSt, List.mem_cons, List.mem_nil_iff, or_false] at hv
+  rcases hv with rfl | rfl | rfl
+  · rw [hk']; decide
+  · rw [hk']; decide
+  · exact absurd hstd (by decide)
+
 end Props.C11
